@@ -43,7 +43,86 @@ var Doc = ResultType("application/vnd.w3.doc", func() {
 	})
 })
 
+// nested result type below two array levels; its default view hides an attribute
+var Cell = ResultType("application/vnd.w3.cell", func() {
+	TypeName("Cell")
+	Attributes(func() {
+		Attribute("v", Int)
+		Attribute("secret", String)
+		Required("v")
+	})
+	View("default", func() {
+		Attribute("v")
+	})
+	View("all", func() {
+		Attribute("v")
+		Attribute("secret")
+	})
+})
+
+var Board = ResultType("application/vnd.w3.board", func() {
+	TypeName("Board")
+	Attributes(func() {
+		Attribute("name", String)
+		Attribute("grid", ArrayOf(ArrayOf(Cell)))
+		Required("name")
+	})
+	View("default", func() {
+		Attribute("name")
+		Attribute("grid")
+	})
+})
+
+// two result types with the same attributes and different default views,
+// nested side by side (the narrower one first)
+var Summary = ResultType("application/vnd.w3.summary", func() {
+	TypeName("Summary")
+	Attributes(func() {
+		Attribute("id", Int)
+		Attribute("title", String)
+		Required("id", "title")
+	})
+	View("default", func() {
+		Attribute("id")
+	})
+})
+
+var Detail = ResultType("application/vnd.w3.detail", func() {
+	TypeName("Detail")
+	Attributes(func() {
+		Attribute("id", Int)
+		Attribute("title", String)
+		Required("id", "title")
+	})
+	View("default", func() {
+		Attribute("id")
+		Attribute("title")
+	})
+})
+
+var Pair = ResultType("application/vnd.w3.pair", func() {
+	TypeName("Pair")
+	Attributes(func() {
+		Attribute("summary", Summary)
+		Attribute("x", Int)
+		Attribute("detail", Detail)
+	})
+	View("default", func() {
+		Attribute("summary")
+		Attribute("x")
+		Attribute("detail")
+	})
+})
+
 var _ = Service("svc", func() {
+	Method("showboard", func() {
+		Result(Board)
+		HTTP(func() { GET("/board") })
+	})
+	Method("showpair", func() {
+		Result(Pair)
+		HTTP(func() { GET("/pair") })
+	})
 	Method("dyn", func() {
 		Result(Doc)
 		HTTP(func() {
